@@ -467,7 +467,7 @@ func genH1Case(t *tape.Tape, tier, mode string) *h1Case {
 	richReq, richResp := mode == "req", mode == "resp"
 	if mode == "req" {
 		if t.Chance(1, 4) {
-			c.ReqRules = append(c.ReqRules, []string{"X-Added-By-Rule: rule-value", "-X-Custom-A", "X-Empty;", "Cache-Control: from-rule", "-User-Agent", "%user-agent", "-Authorization", "-X-Custom*"}[t.Intn(8)])
+			c.ReqRules = append(c.ReqRules, []string{"X-Added-By-Rule: rule-value", "-X-Custom-A", "X-Empty;", "Cache-Control: from-rule", "-User-Agent", "%user-agent", "-Authorization", "-X-Custom*", "-x-custom-*", "-X-CUSTOM*"}[t.Intn(10)])
 		}
 		c.Creds = t.Chance(1, 5)
 	} else if t.Chance(1, 4) {
